@@ -34,7 +34,7 @@ EXPLANATION = (
     "delay (whole edge - on the arm taken when the delay is None, however the test is spelt -, or None entry of a delay list; the "
     "construct is named by this role and the literal, not by statement text) equals the slot into which the ring buffers of _add_edge_buffer (the consumer of the "
     "collected delays) write the current value.  R5 delays, spreads and source indices are accumulated once "
-    "per edge in the order of `edges`; every _add_edge_buffer call receives edges/delays/nodes of the same _collect_delays_from_edges "
+    "per edge in the order of `edges` (directly, or as one tuple per edge that is unzipped front to back after the loop); every _add_edge_buffer call receives edges/delays/nodes of the same _collect_delays_from_edges "
     "result at the same granularity; the re-pointing loop walks `edges` in order and advances the slot range by len(nodes[i]).  "
     "NOT decided: zero pre-history values, equality with the recurrence, what the backends do with index/index_2d/index_axis (C02), the "
     "DDE `past(...)` branch (C10), the Julia/Matlab spelling of roll with an axis argument (circshift; not executable here)."
